@@ -21,7 +21,9 @@ FEATURES = {
     "wgrid": ["lin", "log", "extrap", "disc"],
     "k": ["none", "lin", "log"],
     "g": [0, 1],
-    "h": ["none", "h", "hd", "dh", "ph", "s", "hg", "two", "restricted", "hp", "dph"],
+    # "excl": deps (s, d) and a states-only filter excluding (s=2, h=1); e1.Built zeroes P(h'=1 | next_s = 2),
+    # i.e. the excluded combination is a probability-zero node of the expectation
+    "h": ["none", "h", "hd", "dh", "ph", "s", "hg", "two", "restricted", "hp", "dph", "excl"],
     # "tight": c <= w - 0.2629, so the lowest wealth states have NO feasible choice (supported only for T=1,
     # where their value must be exactly -inf)
     "cons": ["c", "none", "disc", "period", "param", "aux", "tight"],
@@ -68,6 +70,8 @@ def normalise(fv):
     if fv["filt"] in ("grow", "shrink") and fv["h"] == "s":
         pass
     if fv["cc"] == "none" and fv["cons"] in ("period", "param", "aux", "tight"):
+        return None
+    if fv["h"] == "excl" and (fv["trans"] != "default" or fv["filt"] in ("shrink", "states", "grow", "mix")):
         return None
     if fv["wgrid"] == "disc" and fv["k"] != "none":
         return None  # k transition uses continuous w
@@ -233,6 +237,10 @@ def make_source(fv):
     for f in funcs:
         if f.endswith("_filter"):
             P[f] = {}
+    if fv["h"] == "excl":
+        L.append("def sh_filter(s, h):\n    return jnp.logical_not(jnp.logical_and(s == 2, h == 1))")
+        funcs.append("sh_filter")
+        P["sh_filter"] = {}
     if fv["h"] == "restricted":
         L.append("def hd_filter(h, d):\n    return jnp.logical_or(h == 1, d == 0)")
         funcs.append("hd_filter")
@@ -292,14 +300,14 @@ def make_source(fv):
         P["next_k"] = {}
     hdeps = None
     if has_h:
-        hdeps = {"h": ["h"], "hd": ["h", "d"], "dh": ["d", "h"], "ph": ["_period", "h"], "s": ["s"], "hp": ["h", "_period"], "dph": ["d", "_period", "h"],
+        hdeps = {"h": ["h"], "hd": ["h", "d"], "dh": ["d", "h"], "ph": ["_period", "h"], "s": ["s"], "hp": ["h", "_period"], "dph": ["d", "_period", "h"], "excl": ["s", "d"],
                  "hg": ["h", "g"], "two": ["h", "d"], "restricted": ["h", "d"]}[fv["h"]]
         L.append(f"@lcm.mark.stochastic\ndef next_h({', '.join(hdeps)}):\n    pass")
         funcs.append("next_h")
         P["next_h"] = {}
 
     # ---------------- variables
-    states = [("s", "D(3)"), ("w", {"lin": "Lin(1, 5, 5)", "log": "Log(1, 5, 5)", "extrap": "Lin(1, 5, 5)", "disc": "D(4)"}[fv["wgrid"]])]
+    states = [("s", "D(3)"), ("w", {"lin": "Lin(1, 5, 5)", "log": "Log(0.8, 5, 5)", "extrap": "Lin(1, 5, 5)", "disc": "D(4)"}[fv["wgrid"]])]
     if has_h:
         states.append(("h", "D(2)"))  # h before g: declaration order != alphabetical order
     if has_g:
